@@ -49,7 +49,7 @@ func Run(r *ev.Run) {
 	if th {
 		scs = append(scs, dfsScenarios()...)
 	}
-	phase("controlled exhaustive", func() { w.exhaustive(r, scs, 60000, 6) })
+	phase("controlled exhaustive", func() { w.exhaustive(r, scs, r.Pick(4000, 60000), 6) })
 	if th {
 		phase("controlled random 3w1r", func() { w.randomSchedules(r, "3w1r", 20000, 3, 1, 3, 3, 6) })
 	}
